@@ -137,33 +137,44 @@ def rule_default(E, R, rule="R01-default", only=None, floor=12):
 
 
 def rule_clear(E, R, rule="R08-clear"):
+    import sem
     fn = "execution_context::ExecutionContext::clear"
     h = E.hir(fn)
     if not h:
         return R.cannot(rule, fn, "anchor not found")
+    S = sem.Sem(E, h)
     vals = lists = False
-    for c in exprs(h["body"], "MethodCall"):
-        if c["m"] != "for_each":
-            continue
-        root, ch = chain(c)
-        v = chain_verdict(ch)
-        root = strip(root)
-        if root.get("k") == "Field" and local_name(root["e"]) == "self" and v == "ok":
-            clo = closure_of(c["args"][0])
-            if not clo:
-                continue
-            if root["name"] == "values":
-                asg = [a for a in exprs(clo["body"], "Assign")]
-                vals = len(asg) == 1 and def_path(asg[0]["r"]) == "core::option::Option::None"
-            if root["name"] == "list_matchers":
-                cl = list(calls(clo["body"], r"list_matcher::ListMatcher::clear$"))
-                lists = len(cl) == 1
-    R.check(vals, rule, fn, "every value slot is set to None", "expected `self.values.iter_mut().for_each(|v| *v = None)`", h["span"])
-    R.check(lists, rule, fn, "every list matcher is cleared", "expected ListMatcher::clear on every element of self.list_matchers", h["span"])
+
+    def whole_field(node, frame, field):
+        b, root, fr, ms = sem.provenance(S, node, frame, fields=True)
+        if b is None or b.name != "self":
+            return False
+        if ms[:1] != ["." + field]:
+            return False
+        return chain_verdict([{"m": x} for x in ms[1:] if not x.startswith(".")], terminal_ok=("for_each",)) == "ok"
+    for s in S.sites():
+        n = s.node
+        if n.get("k") == "Assign" and def_path(n["r"]) == "core::option::Option::None":
+            if whole_field(n["l"], s.frame, "values") and not s.pc_has_conditions():
+                vals = True
+        if n.get("k") in ("MethodCall", "Call") and norm(n.get("callee", "")) == "list_matcher::ListMatcher::clear":
+            if whole_field(call_args(n)[0], s.frame, "list_matchers") and not s.pc_has_conditions():
+                lists = True
+    R.check(vals, rule, fn, "every value slot is set to None", "expected every element of self.values to be assigned None, unconditionally", h["span"])
+    R.check(lists, rule, fn, "every list matcher is cleared", "expected ListMatcher::clear on every element of self.list_matchers, unconditionally", h["span"])
 
 
-def str_lits(n):
-    return [x["lit"]["v"] for x in exprs(n, "Lit") if x["lit"].get("t") == "str"]
+def str_lits(n, E=None, _depth=0):
+    """string literals in n; with E also those of the local constants / statics that n refers to"""
+    out = [x["lit"]["v"] for x in exprs(n, "Lit") if x["lit"].get("t") == "str"]
+    if E is not None and _depth < 4:
+        for p in exprs(n, "Path"):
+            r = p["res"]
+            if r.get("r") == "def" and str(r.get("dk", "")).startswith(("Const", "AssocConst", "Static")):
+                for c in E.hir_list:
+                    if "body" in c and c["path"] == r.get("path") and c.get("kind", "").startswith(("Const", "AssocConst", "Static")):
+                        out += str_lits(c["body"], E, _depth + 1)
+    return out
 
 
 def rule_keys(E, R, rule="R14-keys"):
@@ -173,8 +184,8 @@ def rule_keys(E, R, rule="R14-keys"):
     de_entry = E.hirs(r"ListMatcherEntryVisitor as serde_core::de::Visitor>::visit_map$")
     if not ser or not de_ctx or not de_entry:
         return R.cannot(rule, "execution_context serde impls", "anchors not found (%d,%d,%d)" % (len(ser), len(de_ctx), len(de_entry)))
-    w = set(str_lits(ser[0]["body"]))
-    r = set(str_lits(de_ctx[0]["body"]))
+    w = set(str_lits(ser[0]["body"], E))
+    r = set(str_lits(de_ctx[0]["body"], E))
     R.check("$lists" in w and "$lists" in r, rule, norm(ser[0]["path"]), "`$lists` key written and read",
             "writer literals %s, reader literals %s" % (sorted(w), sorted(x for x in r if x.startswith("$"))), ser[0]["span"])
     # TypedListMatcher keys: the literals its derived Serialize impl passes to serialize_field
@@ -191,7 +202,7 @@ def rule_keys(E, R, rule="R14-keys"):
                         ks.add(v)
         names = ks if names is None else (names if names == ks else names | ks | {"<writers disagree>"})
     names = names or set()
-    rl = set(str_lits(de_entry[0]["body"]))
+    rl = set(str_lits(de_entry[0]["body"], E))
     R.check(bool(adts) and names == {"type", "data"} and {"type", "data"} <= rl, rule, norm(de_entry[0]["path"]),
             "list entry keys `type`/`data` agree", "writer fields %s, reader literals %s" % (sorted(names), sorted(rl)),
             de_entry[0]["span"])
